@@ -93,7 +93,9 @@ let () =
   let impl_ent : (n, (n * (n * n)) list) Hashtbl.t = Hashtbl.create 16 in
   let impl_rt : (n, router) Hashtbl.t = Hashtbl.create 16 in
   let impl_rib : (n, string) Hashtbl.t = Hashtbl.create 16 in
+  let impl_rib_at : (n, int) Hashtbl.t = Hashtbl.create 16 in
   let late_pending : (n * string) option ref = ref None in
+  let overtake_pending : (n * n) option ref = ref None in
   let rf_seen : (string, string) Hashtbl.t = Hashtbl.create 64 in
   let group_base = ref N0 and group_any = ref false in
   let stale_pending : (n * string) option ref = ref None in
@@ -164,7 +166,10 @@ let () =
       | ["ev"; "late"; i; j] ->
           let i = n_of_dec i and j = n_of_dec j in
           incr evc;
-          late_pending := (match Hashtbl.find_opt impl_rib i with Some prev -> Some (i, prev) | None -> None);
+          (* the before/after comparison needs a dump taken after the sweep; in the real interleaving (evDeadLateRace) the two
+             run concurrently and there is none: there the route_via_non_neighbour oracle and the model decide *)
+          late_pending := (match Hashtbl.find_opt impl_rib i, Hashtbl.find_opt impl_rib_at i with
+                           | Some prev, Some at when at = !evc - 1 -> Some (i, prev) | _ -> None);
           let adv = match getr !pm.base j with Some r -> advert r.rrib | None -> [] in
           apply (PBase (LateUpdate (i, j, adv))) false
       | ["ev"; "clock"; t] -> incr evc; apply (PClock (n_of_dec_raw t)) false
@@ -200,6 +205,17 @@ let () =
           if current && again <> "1" then
             oracle "fetch_not_retried" (Printf.sprintf "router=%s neighbour=%s seq=%s: the failed advertisement fetch was not expressed again within 2.5 s although the sequence number is still the neighbour's latest"
               (dec_of_n i) (dec_of_n j) (dec_of_n_raw sq))
+      | ["ev"; "overtake"; i; j] ->
+          (* an update that started with an older advertisement applies the one current when it holds the lock *)
+          let i = n_of_dec i and j = n_of_dec j in
+          incr evc;
+          (match Hashtbl.find_opt slots j with
+           | None -> Printf.printf "BADLINE %d overtake without stored advertisement\n" !lineno
+           | Some (adv, stamp) ->
+               delivered := true;
+               apply (PBase (Deliver (i, j, adv))) false;
+               overtake_pending := Some (i, j);
+               if stamp < !round_start then begin clean := false; reset_rounds () end else served i j)
       | ["ev"; "hold"; j] ->
           let j = n_of_dec j in
           incr evc;
@@ -239,6 +255,24 @@ let () =
           Hashtbl.replace impl_ent i (parse_ent ent);
           Hashtbl.replace impl_rt i { self = i; rrib = parse_rib rib; nbrs = parse_nb nb };
           (* a late ribUpdate on a removed neighbour's object must leave the implementation's RIB exactly as it was *)
+          (* no usable route through somebody who is not in the neighbour table (hops_okb on the implementation's dump) *)
+          (let ri = { self = i; rrib = parse_rib rib; nbrs = parse_nb nb } in
+           if not (hops_okb ri) then
+             oracle "route_via_non_neighbour" ("router=" ^ dec_of_n i ^ " nb=" ^ nb ^ " rib=" ^ rib));
+          (* an overtaken update must have applied the advertisement current at lock time *)
+          (match !overtake_pending with
+           | Some (i', j) when N.eqb i' i ->
+               overtake_pending := None;
+               (match getr !pm.base i with
+                | Some mr ->
+                    let ir = parse_rib rib in
+                    let dests = List.map fst ir @ List.map fst mr.rrib in
+                    let bad = List.filter (fun d -> not (N.eqb (cost_via ir d j) (cost_via mr.rrib d j))) dests in
+                    if bad <> [] then
+                      oracle "stale_snapshot_applied" (Printf.sprintf "router=%s neighbour=%s: costs through it for %s are not those of the advertisement that was current when the update held the lock; rib=%s"
+                        (dec_of_n i) (dec_of_n j) (String.concat "," (List.map dec_of_n bad)) rib)
+                | None -> ())
+           | _ -> ());
           (* advertisement Data that the protocol must ignore leaves the implementation's RIB exactly as it was *)
           (match !stale_pending with
            | Some (i', prev) when N.eqb i' i ->
@@ -262,7 +296,7 @@ let () =
                late_pending := None;
                if prev <> rib then oracle "late_update_changed_state" ("router=" ^ dec_of_n i ^ " before=" ^ prev ^ " after=" ^ rib)
            | _ -> ());
-          Hashtbl.replace impl_rib i rib;
+          Hashtbl.replace impl_rib i rib; Hashtbl.replace impl_rib_at i !evc;
           if !proto then () else begin
           (match getr !pm.base i with
            | None -> diverge "router" "absent" "present"
